@@ -152,7 +152,10 @@ def h_store(cfg):
         cap = INF
         st = cls(env)
     else:
-        cap = sym_int('cap', 1) if cfg.get('symcap', True) else cfg['cap']
+        if cfg.get('realcap'):
+            cap = sym_num('cap', 'real', 1)       # the capacity is documented as a number (float('inf') by default), not an int
+        else:
+            cap = sym_int('cap', 1) if cfg.get('symcap', True) else cfg['cap']
         st = cls(env, capacity=cap)
     reqs = []
     held = []            # accepted, not yet delivered (insertion order)
@@ -279,7 +282,7 @@ def h_store(cfg):
             pend_put = [r for r in reqs if r['kind'] == 'put' and not r['granted'] and not r['cancelled']]
             pend_get = [r for r in reqs if r['kind'] == 'get' and not r['granted'] and not r['cancelled']]
             if pend_put:
-                check('c07.no-stranded-put', ge(len(held), cap), pend_put[0]['k'])
+                check('c07.no-stranded-put', gt(len(held) + 1, cap), pend_put[0]['k'])
                 cover('pending-at-quiescence')
             if pend_get:
                 if kind == 'filter':
@@ -337,7 +340,8 @@ def jobs(tier, seed):
     n = 3 if tier == 'quick' else 4
     plain, canc = _scripts(n, tier, rng)
     canc_sel = canc if tier != 'quick' else canc[:8]
-    must = [['put', 'put', ['exit', 0]], ['get', 'get', ['exit', 0], 'put'],
+    must = [['put', 'put', ['cancel', 0], ['cancel', 0]], ['get', 'get', ['cancel', 0], ['exit', 0], 'put'],
+            ['put', 'put', ['exit', 0]], ['get', 'get', ['exit', 0], 'put'],
             ['put', 'put', ['cancel', 0]], ['get', 'get', ['cancel', 0], 'put'], ['put', 'put', ['cancel', 0], 'get'],
             ['get', 'get', ['cancel', 0]], ['put', 'get', 'put', ['cancel', 1]]]
     for si, ops in enumerate(plain + must + canc_sel):
@@ -382,6 +386,9 @@ def jobs(tier, seed):
     # items that compare equal but are different objects (1 and 1.0, records compared by one field)
     for ops in (['put', 'put', 'get', 'get'], ['put', 'put', 'put', 'get']):
         js.append({'harness': 'store', 'weight': 30, 'cfg': {'ops': ops, 'sorts': 'int', 'kind': 'filter', 'equal_items': True}})
+    # capacities that are not whole numbers
+    for kind in ('store', 'prio'):
+        js.append({'harness': 'store', 'weight': 30, 'cfg': {'ops': ['put', 'put', 'put', 'get'], 'sorts': 'int', 'kind': kind, 'realcap': True}})
     # falsy items (0, '', empty containers are items like any other)
     for kind in ('store', 'filter'):
         for ops in (['put', 'get', 'get', 'put'], ['get', 'put', 'put', 'get']):
